@@ -416,6 +416,65 @@ def work_names(payload, skip, report):
     return acc
 
 
+# --- a live construct next to the same construct written with a brace-splitting <nowiki/> -----------------------
+ESC_CALL = "&lbrace;&lbrace;u&vert;x&rbrace;&rbrace;"
+ESC_PARAM = "&lbrace;&lbrace;&lbrace;1&vert;d&rbrace;&rbrace;&rbrace;"
+ESC_LINK = "&lsqb;&lsqb;a&rsqb;&rsqb;"
+# (text, what it gives when u is expanded, what it gives when u is not expanded, template_fn calls when expanded)
+TWIN_FORMS = {
+    "call": [("{{u|x}}", "U[x]", "{{u|x}}", 1), ("{<nowiki/>{u|x}}", ESC_CALL, ESC_CALL, 0), ("{{u|x}<nowiki/>}", ESC_CALL, ESC_CALL, 0)],
+    "param": [("{{{1|d}}}", "d", "d", 0), ("{<nowiki/>{{1|d}}}", ESC_PARAM, ESC_PARAM, 0), ("{{{1|d}}<nowiki/>}", ESC_PARAM, ESC_PARAM, 0)],
+    # (no "[[a]<nowiki/>]" form here: followed by "[<nowiki/>[a]]" the outer brackets of the two pair up as one link)
+    "link": [("[[a]]", "[[a]]", "[[a]]", 0), ("[<nowiki/>[a]]", ESC_LINK, ESC_LINK, 0)],
+}
+
+
+def work_twins(payload, skip, report):
+    """Every sequence of 2..3 forms of one family on one page (in one text, and as successive expand() calls on the page)."""
+    acc = Acc(PROP)
+    ctx = new_ctx()
+    ctx.add_page("Template:u", 10, "U[{{{1|}}}]")
+    ctx.db_conn.commit()
+    i = 0
+    for fam, forms in TWIN_FORMS.items():
+        for n in (2, 3):
+            for seq in itertools.product(forms, repeat=n):
+                for pre, te, hooks, split in itertools.product((False, True), (None, ["u"], []), (False, True), (False, True)):
+                    report(i)
+                    i += 1
+                    live = (not pre) or (te is not None and "u" in te)
+                    texts = [f[0] for f in seq]
+                    wants = [f[1] if live else f[2] for f in seq]
+                    ncalls = sum(f[3] for f in seq) if live else 0
+                    case = {"page": " ".join(texts), "config": {"pre_expand": pre, "templates_to_expand": te, "hooks": hooks,
+                                                               "separate_expand_calls": split}}
+                    calls = []
+
+                    def tf(name, a):
+                        calls.append(name)
+
+                    kw = dict(pre_expand=pre, templates_to_expand=None if te is None else set(te), template_fn=tf if hooks else None)
+                    ctx.start_page("Tt")
+                    acc.case()
+                    acc.distinct("configs", ("twin", case["page"], pre, te, hooks, split))
+                    try:
+                        if split:
+                            got = " ".join(ctx.expand(t, **kw) for t in texts)
+                        else:
+                            got = ctx.expand(" ".join(texts), **kw)
+                    except Exception as e:
+                        acc.violation("no_exception", case, type(e).__name__ + ": " + str(e)[:100], "returns")
+                        continue
+                    if got != " ".join(wants):
+                        acc.violation("escaped_twin_stays_text_live_twin_follows_selection", case, got, " ".join(wants))
+                    elif hooks and len(calls) != ncalls:
+                        acc.violation("template_fn_once_per_expanded_call", case, calls, ncalls)
+                    if i % 211 == 0:
+                        acc.sample(case)
+    close_ctx(ctx)
+    return acc
+
+
 def replay(case):
     """Replays one (page text, configuration) case; the page is re-found in the generated page list by its text."""
     ctx = make_ctx(case["config"].get("ctx"))
@@ -464,6 +523,8 @@ def main(run):
         run.acc.merge(acc)
     for cid, acc, hung in run_chunks(work_names, [("names",)], nproc=1, case_timeout=60):
         run.acc.merge(acc)
+    for cid, acc, hung in run_chunks(work_twins, [("twins",)], nproc=1, case_timeout=60):
+        run.acc.merge(acc)
     cov = {
         "distinct_nontrivial": len(run.acc.sets.get("configs", ())),
         "pages": len(pages(run.tier)),
@@ -478,6 +539,7 @@ def main(run):
     assumptions = [
         "selection rule taken from the expand() docstring: under pre_expand a template is expanded iff it exists, is not in templates_to_not_expand and is flagged need_pre_expand or in templates_to_expand; without pre_expand everything is expanded",
         "computed names: %d pages whose call name is produced by another call (5 name shapes x 5 argument lists x 7 selections x pre_expand x hooks) against a 30-line reference written for that family" % (len(NAME_PARTS) * len(NAME_ARGS) * len(NAME_SETS) * 4),
+        "escaped twins: every sequence of 2..3 forms out of {live, <nowiki/> after the first brace, <nowiki/> before the last brace} of one construct (call, parameter, link) on one page, in one text and as successive expand() calls, x selection x hooks",
         "expand_invoke: a dedicated slice (5 pages with #invoke in bodies / arguments / siblings x switch x pre_expand x hook x repeated calls) with hand-written expectations",
     ]
     return run.finish(cov, assumptions, replay_fn=replay)
